@@ -333,6 +333,8 @@ class Result:
             nviol += 1
             path = os.path.join(REPLAY, f"{self.pid}_{len(reported_sites)}_{hashlib.sha1(v['site'].encode()).hexdigest()[:8]}.json")
             json.dump({'property': self.pid, 'site': v['site'], 'what': v['what'], 'replay': v['replay'],
+                       'rerun': {'tier': self.tier, 'seed': self.seed, 'how': f'./check {self.pid} --tier {self.tier} --seed {self.seed} reproduces this run (all generators '
+                                 'are seeded); ./check --replay <this file> does exactly that'},
                        'failing_input_found': v['found'],
                        'failed_obligations': [{'name': o[0], 'detail': o[2][-2000:]} for o in failed]},
                       open(path, 'w'), indent=1, default=str)
@@ -343,7 +345,7 @@ class Result:
             # a proof obligation or a correspondence broke and no concrete failing input was found
             nviol += 1
             path = os.path.join(REPLAY, f"{self.pid}_obligations.json")
-            json.dump({'property': self.pid, 'failing_input_found': False,
+            json.dump({'property': self.pid, 'failing_input_found': False, 'rerun': {'tier': self.tier, 'seed': self.seed},
                        'failed_obligations': [{'name': o[0], 'detail': o[2][-4000:]} for o in failed]},
                       open(path, 'w'), indent=1, default=str)
             lines.append(f"VIOLATION property={self.pid} replay={path} no-failing-input-found")
